@@ -100,6 +100,10 @@ def replay(d):
             if op == 'add_block':
                 g.add_block(T.t2block(a['name'], float(num(a['volume'])), rocks[a['rock']]))
             elif op == 'delete_block': g.delete_block(a['name'])
+            elif op == 'delete_readd_block':
+                blk = g.block.get(a['name'])
+                g.delete_block(a['name'])
+                if blk is not None: g.add_block(blk)
             elif op == 'add_connection':
                 g.add_connection(T.t2connection([blocks[a['pair'][0]], blocks[a['pair'][1]]]))
             elif op == 'delete_connection': g.delete_connection(tuple(a['names']))
